@@ -62,6 +62,13 @@ class Listener:
         elif ev.fn == "pq_close" and ev.path:
             with _REAL_OPEN(ev.path, "rb") as f:
                 payload = f.read()
+        elif ev.fn == "replace" and ev.path2:
+            # what is REALLY published under the new name (cross-check of the traced write path)
+            try:
+                with _REAL_OPEN(ev.path2, "rb") as f:
+                    payload = f.read()
+            except OSError:
+                payload = None
         self.model.feed(ev, res, payload)
         self.trace.append(ev.label().replace(self.model.root, ""))
         self.rep.add("transitions")
@@ -213,6 +220,7 @@ def run_history(payload: Tuple[str, str, int]) -> Dict[str, Any]:
     rep.add("trace_prefixes", lst.prefixes)
     rep.add("pointer_bearing_states", lst.pointer_states)
     rep.add("histories")
+    rep.add("files_published_with_untraced_content", lst.model.untraced_content)
     rep.cov.setdefault("unsynced_new_directories_informational", [])
     for d in sorted(lst.model.unsynced_dirs):
         if d not in rep.cov["unsynced_new_directories_informational"]:
